@@ -163,9 +163,10 @@ Section Force.
   Definition k_distance_z2 (pbc : bool) (cell : option V3) (gs : list gdata) : T * list (list V3) :=
     let gm := gnth gs 0 in let g1 := gnth gs 1 in let g2 := gnth gs 2 in
     let cm := gd_com gm in let c1 := gd_com g1 in let c2 := gd_com g2 in
-    let mid := v3scale O hf (v3add O c1 c2) in
-    let d := pdist pbc cell mid cm in
     let a12 := pdist pbc cell c1 c2 in
+    (* minimum-image branch: the midpoint follows the minimum-image vector joining the two reference centres *)
+    let mid := if pbc then v3add O c1 (v3scale O hf a12) else v3scale O hf (v3add O c1 c2) in
+    let d := pdist pbc cell mid cm in
     let L := vnorm a12 in
     let ax := vunit a12 in
     let x := v3dot O ax d in
@@ -431,14 +432,32 @@ Section Force.
   Inductive bias :=
   | BHarmonic (k : T) (cs : list (nat * T))                                  (* variable index, centre *)
   | BWalls (k lk uk : T) (hl hu : bool) (ws : list (nat * (T * T)))          (* variable index, lower, upper *)
-  | BLinear (k : T) (cs : list (nat * T)).
+  | BLinear (k : T) (cs : list (nat * T))
+  (* metadynamics without grids at a fixed set of hills (colvarbias_meta::calc_hills / calc_hills_force):
+     each hill = weight and, per variable of the bias, (variable index, (centre, sigma)) *)
+  | BMeta (hs : list (T * list (nat * (T * T))))
+  (* ABMD at a fixed reference (colvarbias_abmd::update): force constant, decreasing flag, variable, reference *)
+  | BAbmd (k : T) (dec : bool) (v : nat) (ref : T).
 
   Definition rvar (v : cvar) : var := mkVar (cv_width v) (cv_periodic v) (cv_period v) zero.
   Definition cvar0 : cvar := mkCvar one false zero [].
   Definition vat (l : list cvar) (i : nat) : cvar := nth i l cvar0.
   Definition xat (l : list T) (i : nat) : T := nth i l zero.
+  (* cv_sqdev of a hill: sum_i dist2(x_i, c_i) / sigma_i^2 *)
+  Definition hill_sqdev (ws : list cvar) (xs : list T) (terms : list (nat * (T * T))) : T :=
+    tsum (map (fun t => dist2 O (rvar (vat ws (fst t))) (xat xs (fst t)) (fst (snd t)) / (snd (snd t) * snd (snd t))) terms).
+  (* the hill value: exp(-s/2), set to zero beyond s = 23 *)
+  Definition hill_value (ws : list cvar) (xs : list T) (terms : list (nat * (T * T))) : T :=
+    let s := hill_sqdev ws xs terms in
+    if nltb O (ofnat 23) s then zero else nexp O (nneg O hf * s).
+  Definition abmd_diff (dec : bool) (x ref : T) : T := (x - ref) * (if dec then mone else one).
+
   Definition bias_energy (b : bias) (ws : list cvar) (xs : list T) : T :=
     match b with
+    | BMeta hs => tsum (map (fun h => fst h * hill_value ws xs (snd h)) hs)
+    | BAbmd k dec v ref =>
+      let diff := abmd_diff dec (xat xs v) ref in
+      if nltb O zero diff then zero else hf * k * diff * diff
     | BHarmonic k cs => tsum (map (fun ic => harm_potential O k (rvar (vat ws (fst ic))) (xat xs (fst ic)) (snd ic)) cs)
     | BWalls k lk uk hl hu l =>
       tsum (map (fun iw => walls_potential O k lk uk hl hu (rvar (vat ws (fst iw))) (xat xs (fst iw)) (fst (snd iw)) (snd (snd iw))) l)
@@ -447,6 +466,19 @@ Section Force.
   (* colvar_forces[i] of the bias, summed on variable v (colvarbias::communicate_forces, time_step_factor 1) *)
   Definition bias_force (b : bias) (ws : list cvar) (xs : list T) (v : nat) : T :=
     match b with
+    | BMeta hs =>
+      tsum (map (fun h =>
+                   let val := hill_value ws xs (snd h) in
+                   if neqb O val zero then zero
+                   else tsum (map (fun t => if Nat.eqb (fst t) v
+                                            then fst h * val * (hf / (snd (snd t) * snd (snd t)))
+                                                 * dist2_lgrad O (rvar (vat ws v)) (xat xs v) (fst (snd t))
+                                            else zero) (snd h))) hs)
+    | BAbmd k dec i ref =>
+      if Nat.eqb i v then
+        let diff := abmd_diff dec (xat xs v) ref in
+        if nltb O zero diff then zero else nneg O (if dec then mone else one) * k * diff
+      else zero
     | BHarmonic k cs =>
       tsum (map (fun ic => if Nat.eqb (fst ic) v then harm_force O k (rvar (vat ws v)) (xat xs v) (snd ic) else zero) cs)
     | BWalls k lk uk hl hu l =>
